@@ -128,6 +128,48 @@ def mutants_of(path: Path, rel: str, enums: dict):
                                     "a": a1, "b": b2, "repl": text[a2:b2] + text[b1:a2] + text[a1:b1], "note": ""})
         if isinstance(n, ast.Raise) and not in_skipped(parents.get(id(n))):
             add("DEL_RAISE", n, "pass")
+        # scan 4 operators: a guard that always / never passes, one operand of a conjunction dropped, arguments exchanged, a keyword argument left to its default,
+        # arithmetic operator swapped, break <-> continue, one attribute of self taken for another one the same function uses
+        if isinstance(n, (ast.If, ast.While, ast.IfExp)) and not isinstance(n.test, ast.Constant):
+            add("COND_TRUE", n.test, "True")
+            add("COND_FALSE", n.test, "False")
+        if isinstance(n, ast.BoolOp) and len(n.values) >= 2:
+            op = " and " if isinstance(n.op, ast.And) else " or "
+            for i in range(len(n.values)):
+                rest = [v for j, v in enumerate(n.values) if j != i]
+                add("BOOL_DROP", n, "(" + op.join(f"({ast.unparse(v)})" for v in rest) + ")", note=f"operand {i} dropped")
+        if isinstance(n, ast.UnaryOp) and isinstance(n.op, ast.Not) and not isinstance(parents.get(id(n)), (ast.If, ast.While, ast.IfExp)):
+            add("NOT_DROP", n, f"({ast.unparse(n.operand)})")
+        if isinstance(n, ast.Call) and not any(isinstance(x, ast.Starred) for x in n.args):
+            if len(n.args) >= 2 and ast.unparse(n.args[0]) != ast.unparse(n.args[1]):
+                a0, b0 = seg(lines, n.args[0])
+                a1, b1 = seg(lines, n.args[1])
+                out.append({"file": rel, "kind": "ARG_SWAP", "line": n.lineno, "fn": func_of(n), "old": text[a0:b1][:120], "new": "swapped", "a": a0, "b": b1,
+                            "repl": text[a1:b1] + text[b0:a1] + text[a0:b0], "note": ""})
+            for kw in n.keywords:
+                if kw.arg is not None and len(n.keywords) + len(n.args) >= 2:
+                    c = ast.Call(func=n.func, args=n.args, keywords=[k for k in n.keywords if k is not kw])
+                    add("KW_DROP", n, ast.unparse(c), note=f"keyword {kw.arg} dropped")
+        if isinstance(n, ast.BinOp) and type(n.op) in (ast.Add, ast.Sub, ast.Mult, ast.Div, ast.FloorDiv) and not isinstance(n.left, ast.Constant) or \
+                isinstance(n, ast.BinOp) and type(n.op) in (ast.Add, ast.Sub) and isinstance(n.left, ast.Constant) and isinstance(n.left.value, (int, float)):
+            sw = {ast.Add: "-", ast.Sub: "+", ast.Mult: "/", ast.Div: "*", ast.FloorDiv: "*"}[type(n.op)]
+            if not (isinstance(n.left, ast.Constant) and isinstance(n.left.value, str)) and not (isinstance(n.right, ast.Constant) and isinstance(n.right.value, str)):
+                add("ARITH", n, f"({ast.unparse(n.left)}) {sw} ({ast.unparse(n.right)})")
+        if isinstance(n, ast.Break):
+            add("BRK_CONT", n, "continue")
+        if isinstance(n, ast.Continue):
+            add("BRK_CONT", n, "break")
+        if isinstance(n, ast.FunctionDef):
+            attrs = []
+            for x in ast.walk(n):
+                if isinstance(x, ast.Attribute) and isinstance(x.value, ast.Name) and x.value.id == "self" and x.attr not in attrs:
+                    attrs.append(x.attr)
+            if len(attrs) >= 2:
+                for x in ast.walk(n):
+                    if isinstance(x, ast.Attribute) and isinstance(x.value, ast.Name) and x.value.id == "self" and not in_skipped(x) \
+                            and not isinstance(parents.get(id(x)), ast.Call) :
+                        i = attrs.index(x.attr)
+                        add("SELF_ATTR", x, f"self.{attrs[(i + 1) % len(attrs)]}")
     return text, out
 
 
